@@ -510,6 +510,11 @@ DIRECTED = [
     [dict(_p(hsets=False), **{'async': [8, 'done', 2]}), _p(persistent=True, restore='sets', dests=[0])],
     [dict(_p(dests=[1]), kind='valuepoll', poll_i=5, poll_k=0, **{'async': [8, 'poll', 0]}),
      dict(_p(hsets=False), **{'async': [8, 'done', 2]})],
+    # two async routines with different time limits: the one with the shorter limit overruns it but is done
+    # before the wait for the other one ends (whatever the outcome, it is the same in both creation orders)
+    [dict(_p(), **{'async': [4, 'done', 6]}), dict(_p(), **{'async': [20, 'done', 10]})],
+    [dict(_p(), **{'async': [8, 'done', 10]}), dict(_p(), **{'async': [12, 'done', 14]}),
+     dict(_p(), **{'async': [20, 'done', 18]})],
     # a restored state feeds an event back into the restoring block
     [_p(persistent=True, restore='sets', dests=[1]), _p(dests=[0])],
     [_p(persistent=True, restore='sets', dests=[1]), _p(regular='sets', dests=[0, 2]), _p(dests=[0])],
